@@ -7,8 +7,16 @@
    event history the machine accepts -- including both orders of a handler-return/deadline
    tie (the [saw] input of AnReturn and the [viaDone] input of AnDecide) -- with or without
    the maximal-progress restriction on the clock.  [an_fixed cfg] selects the code in /repo
-   now (per-attempt result channel, fix d4c0a4b). *)
-From Got Require Import Base Ants AntsProofs.
+   now (per-attempt result channel, fix d4c0a4b).
+   Event histories include [AnParentCancel]: the pool was built with WithContextBuilder and the
+   dispatchers' (shared) parent context is cancelled at that point of the history; from then on
+   every attempt's ctx1 is done at creation, the dispatcher's select may take the ctx1.Done()
+   branch at once ([AnDecide k false] is enabled), a callback's ctx1.Done() test succeeds
+   ([saw] = true is forced), an honouring handler returns (nil, context.Canceled).  All theorems
+   below are proved for those histories too (same statements: "timed out" = the attempt's context
+   was done, the stored error is context.DeadlineExceeded in that case as well);
+   [ants_cancelled_parent_outcome] adds what is specific to them. *)
+From Got Require Import Base Ants AntsProofs AntsCancelProofs.
 Local Open Scope Z_scope.
 
 (* <= R handler invocations per task, each for a distinct attempt number in [1, R]; when the
@@ -104,6 +112,38 @@ Theorem ants_eventually_invoked :
 Proof. exact ants_eventually_invoked_l. Qed.
 Print Assumptions ants_eventually_invoked.
 
+(* Cancelled parent context.  A task picked up strictly after the instant q at which the dispatchers'
+   parent context was cancelled, once run() has returned: exactly R attempts were decided (numbers
+   R, ..., 1), every one with (nil, DeadlineExceeded); result/err and every Get2 read are (nil,
+   DeadlineExceeded); wg.Done() ran once, at f, and the error callback (if registered) ran exactly once,
+   at f, with DeadlineExceeded; every one of the R attempts has had its handler invoked or its
+   callback is still waiting in innerCallbackChan (none is skipped).  (Tasks in flight at the
+   instant of the cancellation are covered by the general theorems above.) *)
+Theorem ants_cancelled_parent_outcome :
+  forall cfg evs s k q,
+    an_fixed cfg -> an_run cfg an_init evs = Some s ->
+    an_pc s = Some q -> q < at_pickup (an_tk s k) -> at_phase (an_tk s k) = AnDone ->
+    let t := an_tk s k in
+    map an_attempt_of (at_dec t) = rev (seq 1 (ao_R (at_opts t))) /\
+    (forall a p f, In (a, p, f) (at_dec t) -> p = (None, AnDeadline)) /\
+    at_fields t = (None, AnDeadline) /\
+    (forall g, In g (at_get2 t) -> fst g = (None, AnDeadline)) /\
+    (exists f, at_rel t = [f] /\ at_onerr t = (if ao_onerr (at_opts t) then [(AnDeadline, f)] else [])) /\
+    (forall a, (1 <= a <= ao_R (at_opts t))%nat -> (exists d, In (k, a, d) (an_ichan s)) \/ In a (map fst (at_inv t))).
+Proof. exact ants_cancelled_parent_outcome_l. Qed.
+Print Assumptions ants_cancelled_parent_outcome.
+
+(* after the cancellation at q: q <= now, and the context of every queued callback and of every
+   running handler was done by q (the deadline stored with it is <= q) *)
+Theorem ants_cancelled_parent_contexts_done :
+  forall cfg evs s q,
+    an_run cfg an_init evs = Some s -> an_pc s = Some q ->
+    q <= an_now s /\
+    (forall k a d, In (k, a, d) (an_ichan s) -> d <= q) /\
+    (forall k a d r p, In (AnRun k a d r p) (an_workers s) -> d <= q).
+Proof. exact ants_cancelled_parent_contexts_done_l. Qed.
+Print Assumptions ants_cancelled_parent_contexts_done.
+
 (* The code before the fix (shared-field store by the inner callback): a history after which
    Get2 reports attempt 1's (7, nil) although the only decision was (nil, DeadlineExceeded)
    and onError(DeadlineExceeded) ran; the same history on the current code gives (nil,
@@ -128,4 +168,25 @@ Example c07_nonvacuous :
             an_fixed an_k1_cfg /\ at_pickup (an_tk s 2%nat) = 2016.
 Proof.
   destruct ants_get2_bound_refuted_l as (s & H & H1 & _ & H2 & _). exists s. repeat split; assumption.
+Qed.
+
+(* non-vacuity for histories with a cancelled parent context (the scenario of the seeded change
+   "return early when the dispatcher's ctx is done"): N = 1, T = 1000, R = 3, error callback registered;
+   the handler of attempt 1 ignores its context and would return (7, nil) at 400; the parent is cancelled at
+   200.  The history is accepted with maximal progress; attempts 1 and 2 are decided at 200, attempt 3 at
+   400 (the dispatcher waited in sendInnerCallback for the busy inner worker), each with (nil,
+   DeadlineExceeded); the error callback runs once at 400 with DeadlineExceeded; all three handlers are
+   invoked (attempt 2's honouring handler returns (nil, Canceled) at once); without AnParentCancel the same
+   script ends with (7, nil); after AnParentCancel the model refuses saw = false. *)
+Example c07_cancelled_parent_nonvacuous :
+  exists s, an_run an_pc_cfg an_init an_pc_history = Some s /\ an_fixed an_pc_cfg /\ an_pc s = Some 200 /\
+    In AnParentCancel an_pc_history /\
+    let t := an_tk s 0%nat in
+    at_phase t = AnDone /\
+    at_dec t = [(3%nat, (None, AnDeadline), 400); (2%nat, (None, AnDeadline), 200); (1%nat, (None, AnDeadline), 200)] /\
+    at_onerr t = [(AnDeadline, 400)] /\ at_get2 t = [((None, AnDeadline), 400)] /\
+    at_inv t = [(3%nat, 400); (2%nat, 400); (1%nat, 0)].
+Proof.
+  destruct ants_cancelled_parent_witness_l as (s & H1 & H2 & H3 & H4 & H5 & H6 & _ & H8 & H9 & _).
+  exists s. repeat split; try assumption. vm_compute. tauto.
 Qed.
